@@ -1,0 +1,119 @@
+//go:build verif
+
+// Verification hooks (build tag `verif` only; see /verif/DESIGN.md section 4).
+// Add-only: nothing here is compiled into a normal build.
+
+package routetab
+
+import (
+	"sort"
+	"time"
+
+	"github.com/ethereum/go-ethereum/common"
+	"github.com/gauss-project/aurorafs/pkg/boson"
+	"github.com/gauss-project/aurorafs/pkg/storage"
+	"github.com/gogf/gf/v2/os/gcache"
+)
+
+// VerifNewTable exports the unexported route table constructor.
+func VerifNewTable(self boson.Address, store storage.StateStorer) *Table {
+	return newRouteTable(self, store)
+}
+
+var (
+	verifCaches    = map[int]*gcache.Cache{}
+	verifBaseCache = cache
+)
+
+// VerifUseCache makes the package-global cache the private cache of node i
+// (one process hosts several Service instances in a conformance run; in
+// production every node has its own process and therefore its own cache).
+func VerifUseCache(i int) {
+	c, ok := verifCaches[i]
+	if !ok {
+		c = gcache.New()
+		verifCaches[i] = c
+	}
+	cache = c
+}
+
+// VerifResetCaches empties the package-global cache(s).
+func VerifResetCaches() {
+	_ = verifBaseCache.Clear(cacheCtx)
+	for _, c := range verifCaches {
+		_ = c.Clear(cacheCtx)
+	}
+	cache = verifBaseCache
+}
+
+// VerifRoute is one entry of a target's route list.
+type VerifRoute struct {
+	Neighbor boson.Address
+	Key      common.Hash     // sha256 of the concatenated path items
+	Items    []boson.Address // nil when the referenced path is not stored
+	HasPath  bool
+}
+
+// VerifDump returns the route lists (by target, hex) and every stored path.
+func (t *Table) VerifDump() (routes map[string][]VerifRoute, paths [][]boson.Address) {
+	routes = make(map[string][]VerifRoute)
+	t.mu.RLock()
+	for k, list := range t.routes {
+		target := boson.NewAddress(k.Bytes()).String()
+		out := make([]VerifRoute, 0, len(list))
+		for _, r := range list {
+			vr := VerifRoute{Neighbor: r.Neighbor, Key: r.PathKey}
+			if p, ok := t.paths.Load(r.PathKey); ok {
+				vr.HasPath = true
+				vr.Items = append([]boson.Address(nil), p.(*Path).Items...)
+			}
+			out = append(out, vr)
+		}
+		routes[target] = out
+	}
+	t.mu.RUnlock()
+	t.paths.Range(func(_, v interface{}) bool {
+		paths = append(paths, append([]boson.Address(nil), v.(*Path).Items...))
+		return true
+	})
+	sort.Slice(paths, func(i, j int) bool {
+		a, b := paths[i], paths[j]
+		for k := 0; k < len(a) && k < len(b); k++ {
+			if !a[k].Equal(b[k]) {
+				return a[k].String() < b[k].String()
+			}
+		}
+		return len(a) < len(b)
+	})
+	return
+}
+
+// VerifTable returns the service's route table.
+func (s *Service) VerifTable() *Table { return s.routeTable }
+
+// VerifPending returns the pending table: for every target (hex) the sources
+// waiting for a response, and the keys of the sent-request log.
+func (s *Service) VerifPending() (resp map[string][]boson.Address, req []string) {
+	resp = make(map[string][]boson.Address)
+	s.pendingCalls.mu.RLock()
+	for k, list := range s.pendingCalls.respList {
+		target := boson.NewAddress(k.Bytes()).String()
+		for _, it := range list {
+			resp[target] = append(resp[target], it.Src)
+		}
+	}
+	s.pendingCalls.mu.RUnlock()
+	s.pendingCalls.reqList.Range(func(k, _ interface{}) bool {
+		req = append(req, k.(string))
+		return true
+	})
+	sort.Strings(req)
+	return
+}
+
+// VerifPendingExpire runs the two pending-table collectors once with the given
+// expiry (0 = everything has expired), as the background ticker does.
+func (s *Service) VerifPendingExpire(expire time.Duration) {
+	s.pendingCalls.GcReqLog(expire)
+	s.pendingCalls.GcResItems(expire)
+}
